@@ -106,7 +106,7 @@ class Gen:
         page = self.nodes(lex=0, depth=self.depth, in_fill=None, top=True)
         if not any(self._has_comp(nd) for nd in page):
             page.append(self.comp(lex=0, depth=self.depth, in_fill=None))
-        return {"id": pid, "mode": mode, "devs": [], "dyn": False, "ctx": ctx, "comps": comps, "page": page}
+        return {"id": pid, "mode": mode, "devs": [], "dyn": False, "pyctx": False, "ctx": ctx, "comps": comps, "page": page}
 
     def _has_comp(self, nd) -> bool:
         if nd["t"] == "comp":
@@ -299,7 +299,7 @@ def tpl_src(nodes: List[Dict[str, Any]], tag: str, dyn: bool = False, probes: bo
             src = '{%% %s %s%s%s %%}%s{%% end%s %%}' % (tag, name, _kw_src(n["kw"]), only, tpl(n["a"]), tag)
             if probes:
                 _snap_id[0] += 1
-                src = "{%% vf_snap %d %%}%s{%% vf_snap %d %%}" % (_snap_id[0], src, _snap_id[0])
+                src = '{%% vf_snap %d "b" %%}%s{%% vf_snap %d "a" %%}' % (_snap_id[0], src, _snap_id[0])
             out.append(src)
         else:
             raise ValueError(t)
@@ -330,6 +330,7 @@ def registry(mode: str):
 
 
 SNAPS: Dict[int, List[Any]] = {}
+SNAP_DIFFS: List[str] = []
 
 
 def _ctx_fingerprint(context) -> Any:
@@ -346,8 +347,16 @@ def _vf_tags():
     lib = Library()
 
     @lib.simple_tag(takes_context=True)
-    def vf_snap(context, n):
-        SNAPS.setdefault(n, []).append(_ctx_fingerprint(context))
+    def vf_snap(context, n, which):
+        # "b"efore pushes the caller's fingerprint, "a"fter pops and compares (renders may nest)
+        st = SNAPS.setdefault(n, [])
+        if which == "b":
+            st.append(_ctx_fingerprint(context))
+        else:
+            before = st.pop() if st else None
+            now = _ctx_fingerprint(context)
+            if before != now:
+                SNAP_DIFFS.append(f"snap {n}: before={before} after={now}")
         return ""
     return lib
 
@@ -458,6 +467,7 @@ def render_page(prog, dyn: bool = False, probes: bool = False) -> Dict[str, Any]
     and (C03) whether the caller's Context is unchanged around every component tag and after the render."""
     from django.template import Context, Template
     SNAPS.clear()
+    SNAP_DIFFS.clear()
     ctx = Context(page_context(prog))
     before = _ctx_fingerprint(ctx)
     try:
@@ -467,10 +477,6 @@ def render_page(prog, dyn: bool = False, probes: bool = False) -> Dict[str, Any]
         return {"err": type(e).__name__, "msg": str(e)[:300], "out": [], "junk": "", "ctx_changed": ""}
     toks, junk = tokens(html)
     changed = "" if _ctx_fingerprint(ctx) == before else "page context differs after render"
-    for n, recs in SNAPS.items():
-        if len(recs) % 2:
-            changed = changed or f"snap {n}: odd number of records"
-        for i in range(0, len(recs) - 1, 2):
-            if recs[i] != recs[i + 1]:
-                changed = changed or f"caller context differs after component tag (snap {n}): {recs[i]} -> {recs[i + 1]}"
+    if SNAP_DIFFS:
+        changed = changed or "caller context differs after a component tag: " + SNAP_DIFFS[0]
     return {"err": "", "out": toks, "junk": junk, "html": html if len(html) < 3000 else html[:3000], "ctx_changed": changed}
